@@ -198,7 +198,11 @@ def oracle(ctx):
             c.fail('perchannel_unsupported_op', f'{what}: {len(src_t.scale)} '
                    f'per-channel scales on dimension {src_t.qdim}; the '
                    f'{t} kernel takes per-tensor parameters', facts, t)
-          return
+          if t != 'BATCH_MATMUL':
+            return
+          # the values are still checked against the output-channel dimension
+          # of the matmul (last, or last-but-one when the RHS is transposed)
+          d = w.ndim - 2 if meta.variant == 'const_adjy' else w.ndim - 1
         axes = tuple(i for i in range(w.ndim) if i != d)
         mn, mx = w.min(axis=axes), w.max(axis=axes)
         if src_t.quantized() and len(src_t.scale) > 1 and src_t.qdim != d:
